@@ -162,6 +162,7 @@ def check(ctx):
                 bad = bad or (pc, "expected %s, got Ok %s" % (e[1:], toks(rr.text)[:8]))
             elif (k[0], k[1], [x for x in k[2] if x.startswith("x")][:len(want[2])]) != want:
                 bad = bad or (pc, "expected %s, got %s" % (e[1:], rr.err))
+    ppx.scenario_batch(ctx, "C10", 60 if ctx.quick() else 1000, "c10sc")
     ctx.obl("search-oracle:search order, splice, defines in/out, same-line rule, faults, ignore_include", "oracle",
             bad is None, bad[1] if bad else "")
     if bad:
